@@ -358,9 +358,9 @@ fn run_once(f: fn(&In) -> u64, a: U, b: U, m: U, s: u32) -> (u64, usize) {
 fn main() {
     let args: Vec<String> = std::env::args().collect();
     let mut out_path = String::new(); let mut seed = 1u64; let mut nsec = 28usize; let mut only: Option<String> = None;
-    let mut one: Option<(String, usize)> = None;       // --one <class> <secret index>: run exactly that run (machine-level cross-check)
+    let mut one: Option<(String, Vec<usize>)> = None;  // --one <class> <i,j,..>: run exactly these secrets of that class (machine-level cross-check)
     let mut i = 1;
-    while i < args.len() { match args[i].as_str() { "--out" => { out_path = args[i + 1].clone(); i += 1 } "--seed" => { seed = args[i + 1].parse().unwrap(); i += 1 } "--secrets" => { nsec = args[i + 1].parse().unwrap(); i += 1 } "--only" => { only = Some(args[i + 1].clone()); i += 1 } "--one" => { one = Some((args[i + 1].clone(), args[i + 2].parse().unwrap())); i += 2 } "--tier" => { i += 1 } _ => {} } i += 1; }
+    while i < args.len() { match args[i].as_str() { "--out" => { out_path = args[i + 1].clone(); i += 1 } "--seed" => { seed = args[i + 1].parse().unwrap(); i += 1 } "--secrets" => { nsec = args[i + 1].parse().unwrap(); i += 1 } "--only" => { only = Some(args[i + 1].clone()); i += 1 } "--one" => { one = Some((args[i + 1].clone(), args[i + 2].split(',').map(|x| x.parse().unwrap()).collect())); i += 2 } "--tier" => { i += 1 } _ => {} } i += 1; }
     if one.is_some() && out_path.is_empty() { out_path = "/dev/null".to_string(); }
     let mut out = std::io::BufWriter::new(std::fs::File::create(&out_path).expect("out"));
     let mut r = Rng(seed ^ 0x1234_5678);
@@ -368,10 +368,13 @@ fn main() {
     let ms = moduli();
     let main_addr = main as usize as u64;
     let mut nev = 0u64;
-    for op in ops.iter() {
+    for (oi, op) in ops.iter().enumerate() {
         if let Some(o) = &only { if !op.name.contains(o.as_str()) { continue; } }
+        if let Some((c1, _)) = &one { if !c1.starts_with(op.name) { continue; } }
         for (ci, m) in ms.iter().enumerate() {
             let s = [0u32, 1, 64, 77, 255, 256][ci % 6] + (seed as u32 % 3);
+            // every class draws from its own stream, so that a single class can be re-run in isolation (--one)
+            r = Rng(seed ^ 0x1234_5678 ^ ((oi as u64) << 32) ^ ((ci as u64) << 24));
             let secs = secrets(&mut r, m, nsec + if ci == 0 { op.more } else { 0 });
             // operands that the documentation names as public stay fixed within the class
             let (pa, pb) = secs[(ci * 5 + 1) % secs.len()];
@@ -379,7 +382,7 @@ fn main() {
             let mut first: Option<(u64, usize, Vec<(u8, u64, u64)>)> = None;
             if let Some((c1, _)) = &one { if *c1 != cls { continue; } }
             for (si, (sa, sb)) in secs.iter().enumerate() {
-                if let Some((_, s1)) = &one { if *s1 != si { continue; } }
+                if let Some((_, s1)) = &one { if !s1.contains(&si) { continue; } }
                 let mut a = if op.secret_a { *sa } else { pa };
                 let mut b = if op.secret_b { *sb } else { pb };
                 // operations on residues get residues: reduce in a way that does not touch the recorded region
